@@ -104,6 +104,7 @@ def build(unit, repo=None, out_dir=None, canary=False):
         unit_cfg = json.load(open(os.path.join(unit_dir, "unit.json")))
     body = []
     functions = []
+    consts_done = set()
     srcs = {}
     for e in entries:
         path = os.path.join(repo, e["src"])
@@ -155,6 +156,22 @@ def build(unit, repo=None, out_dir=None, canary=False):
             c["stub"] = "original of a canary copy (not re-verified in the canary run)"
             canary_on = True
         new, markers = X.rewrite_fn(text, c, rep)
+        # R11 (associated constants): a method that names `Self::NAME` (upper case) for a `const NAME` item of its own impl block
+        # gets that item emitted in front of it, once per generated impl block - a constant is part of the real text the method means
+        if e.get("within") and e.get("implheader"):
+            for cname in sorted(set(re.findall(r"\bSelf::([A-Z][A-Z0-9_]+)\b", text))):
+                if (e["implheader"], cname) in consts_done:
+                    continue
+                try:
+                    cs, ce = X.find_item(src, "const", cname, within=e.get("within"))
+                except X.ExtractError:
+                    continue
+                ctext_ = src[cs:ce]
+                if not re.match(r"\s*pub\b", ctext_):
+                    ctext_ = "pub " + ctext_.lstrip()
+                consts_done.add((e["implheader"], cname))
+                rep.append({"rule": "R11", "before": "", "after": ctext_, "count": 1})
+                new = ctext_ + "\n" + new
         for pref in unit_cfg.get("path_strip", []):
             if pref in new:
                 rep.append({"rule": "R9", "before": pref, "after": "", "count": new.count(pref)})
